@@ -1,9 +1,9 @@
 import Pyrealb.Model.ConjSurface
 /-! # `TerminalEn.conjugate` (src/pyrealb/TerminalEn.py:75-132) for a verb realized alone
 
-`V(lemma).t(t).pe(pe).n(n).realize()` with the current language English.  Mirrors the code branch for branch,
-including what looks wrong (the `bp`/`bp-to` branch tests `t in conjugationTable` — the tense code against the
-TOP-LEVEL keys of the table — and would then read the attribute `.t` of a dict).
+`V(lemma).t(t).pe(pe).n(n).realize()` with the current language English.  Mirrors the code branch for branch, as
+repaired by /repo commits 6d8d05f (perfect infinitive uses the participle) and 2945467 (past subjunctive of a verb
+without a `ps` row is defective).
 
 The auxiliaries `will`, `have` are realized by a nested `V(aux).realize()` (`insertReal`); their lexicon entries
 are parameters (`EnEnv`).  The nested call only ever uses the tenses `p`, `ps`, `b`, which do not recurse: the
@@ -34,6 +34,15 @@ def morpho (st : VState) (w : Nat) : EnOut := { pre := [], self := bracket st.le
 /-- `insertReal(res, V(aux)[.t(ta)], 0)`: construct, `realize()` (result discarded, crashes and warnings are not),
     the inserted terminal keeps `newTerminal.realization` -/
 abbrev Nested := Option Verb → Str → Tense → Except Crash (Str × Nat)
+
+/-- the participle slot of `bp`/`bp-to` (lines 121-124): `(self.realization, warnings)` -/
+def participle (tb : Table) (st : VState) : Except Crash (Str × Nat) :=
+  match (if tb.hasT then tb.row? (s "pp") else none) with
+  | none | some .null => .ok (bracket st.lemma, 1)
+  | some row =>
+    match row.concat st.stem with
+    | .error e => .error e
+    | .ok r => .ok (r, 0)
 
 /-- the body of `conjugate`; `w` = warnings so far -/
 def conjugateWith (nested : Nested) (rules : Rules) (env : EnEnv) (st : VState) (pe : Person) (n : Num)
@@ -76,14 +85,16 @@ def conjugateWith (nested : Nested) (rules : Rules) (env : EnEnv) (st : VState) 
         | .si =>
           if st.lemma = s "be" then .ok { pre := [], self := s "were", warns := w }
           else
-            -- `self.stem + getRules(...)["conjugation"][self.tab]["t"]["ps"]`
-            if !tb.hasT then .error .keyError else
-            match tb.row? (s "ps") with
-            | none => .error .keyError
-            | some row =>
-              match row.concat st.stem with
+            -- `ps = conjugationTable["t"].get("ps") if "t" in conjugationTable else None`
+            match (if tb.hasT then tb.row? (s "ps") else none) with
+            | none | some .null => .ok (morpho st w)                   -- "Cannot conjugate at these tense and person"
+            | some (.str x) => .ok { pre := [], self := st.stem ++ x, warns := w }
+            | some (.list l) =>
+              -- `if isinstance(ps, list): ps = ps[pe - 1 + (3 if n == "p" else 0)]`
+              match (Row.list l).at (idx6 pe n) with
               | .error e => .error e
-              | .ok r => .ok { pre := [], self := r, warns := w }
+              | .ok none => .ok (morpho st w)
+              | .ok (some x) => .ok { pre := [], self := st.stem ++ x, warns := w }
         | .f =>
           match nested env.will (s "will") .p with
           | .error e => .error e
@@ -93,14 +104,16 @@ def conjugateWith (nested : Nested) (rules : Rules) (env : EnEnv) (st : VState) 
           | .error e => .error e
           | .ok (r, w') => .ok { pre := [r], self := st.lemma, warns := w + w' }
         | .bp | .bpTo =>
-          -- `if t in conjugationTable and "pp" in conjugationTable.t:` — `t` against the top-level keys
-          if tb.keys.contains t.code then .error .attributeError      -- 'dict' object has no attribute 't'
-          else
+          -- `if "t" in conjugationTable and conjugationTable["t"].get("pp") is not None: stem + pp`
+          -- `else: self.morphoError(...)` (in place: the auxiliary is still inserted)
+          match participle tb st with
+          | .error e => .error e
+          | .ok (pp, wpp) =>
             match nested env.have_ (s "have") .b with
             | .error e => .error e
             | .ok (r, w') =>
-              if t = .bpTo then .ok { pre := [s "to", r], self := st.lemma, warns := w + w' }
-              else .ok { pre := [r], self := st.lemma, warns := w + w' }
+              if t = .bpTo then .ok { pre := [s "to", r], self := pp, warns := w + w' + wpp }
+              else .ok { pre := [r], self := pp, warns := w + w' + wpp }
         | .bTo => .ok { pre := [s "to"], self := st.lemma, warns := w }
         | .ip =>
           if pe = .p1 ∧ n = .p then .ok { pre := [s "let's"], self := st.lemma, warns := w }
